@@ -116,6 +116,11 @@ def safe_run(run_case, case, prefix):
         raise
     except BaseException as e:  # noqa
         res = CaseResult()
+        if type(e).__name__ == "Unbuildable":
+            # no Python value of the case's type can be handed to the API on
+            # this tree: a counted, trivial case
+            res.tag("skipped:unbuildable-value")
+            return res
         res.fail(
             exception_bucket(prefix, e),
             "".join(traceback.format_exception(type(e), e, e.__traceback__))[-1800:],
